@@ -21,6 +21,9 @@ func init() {
 		add("Set‖CleanUp", CacheCfg{MaxSize: 2}, two, [][]string{{"set 3"}, {"cleanup"}}, "native", pbW1, 16, budget)
 		// W4 write buffer full -> caller-runs fallback (retries 2 in the small variant, buffer max 4)
 		add("Set‖Set(buffer-full)", CacheCfg{MaxSize: 8, WriteMax: 4}, nil, [][]string{{"set 1", "set 2", "set 3"}, {"set 4", "set 5", "set 6"}}, "small", pbRest, 16, budget)
+		// the buffer fills up while an iteration holds the eviction lock; the writer that finds it full assists (runs the
+		// maintenance itself) and a late writer arrives during that assisted run
+		add("Coldest‖Sets(buffer-full, assist)‖Set", CacheCfg{MaxSize: 8, WriteMax: 4}, two, [][]string{{"coldest", "set 8"}, {"set 3", "set 4", "set 5", "set 6", "set 7"}}, "small", 2, 16, budget)
 		// W5 other holders of the eviction lock
 		add("Set‖InvalidateAll", CacheCfg{MaxSize: 5}, two, [][]string{{"set 1"}, {"invall"}}, "native", pbRest, 16, budget)
 		add("Set‖Coldest", CacheCfg{MaxSize: 5}, two, [][]string{{"set 1"}, {"coldest"}}, "native", pbRest, 16, budget)
@@ -54,6 +57,7 @@ func init() {
 			}
 		}
 		if thorough {
+			add("Coldest‖Sets(buffer-full, assist)‖Set/3", CacheCfg{MaxSize: 8, WriteMax: 4}, two, [][]string{{"coldest"}, {"set 3", "set 4", "set 5", "set 6", "set 7"}, {"set 8"}}, "small", 2, 16, budget)
 			add("Set‖Set(expiry)", CacheCfg{MaxSize: 2, Expiry: "writing", TTL: 100}, two, [][]string{{"set 1"}, {"set 3"}}, "native", 2, 16, budget)
 			add("Set;Set‖Set", CacheCfg{MaxSize: 2}, two, [][]string{{"set 1", "set 4"}, {"set 3"}}, "native", 2, 16, budget)
 		}
